@@ -83,6 +83,9 @@ def cases(draw: Any, tier: str) -> dict:
         r: dict[str, Any] = {"k": "svc", "action": action, "beh": beh, "d": dd, "c": d.weighted([(0, 30), (1, 35), (2, 20), (3, 15)]),
                              "shape": d.weighted([("function", 65), ("object", 20), ("partial", 15)]),
                              "started": d.pct(30), "inner_td": d.pct(40), "via": d.pick(["module", "method"])}
+        if d.pct(30):
+            # names are descriptions, not keys: several service tasks may carry the same one
+            r["name"] = d.pick(["worker", "worker", "server"])
         if not crashed and body_sleep > 0 and d.pct(6):
             r["beh"] = "crash"
             r["d"] = d.pick([x for x in (1, 3, 5) if x < body_sleep] or [1])
@@ -267,9 +270,9 @@ class Interp:
                         action = functools.partial(action)
                     fn = self.make_task(i, reg, stop)
                     if reg["via"] == "module":
-                        v = await start_service_task(fn, f"svc{i}", teardown_action=action)
+                        v = await start_service_task(fn, reg.get("name") or f"svc{i}", teardown_action=action)
                     else:
-                        v = await ctx.start_service_task(fn, f"svc{i}", teardown_action=action)
+                        v = await ctx.start_service_task(fn, reg.get("name") or f"svc{i}", teardown_action=action)
                     self.start_values[i] = v
                 self.ev("reg", i)
 
